@@ -26,7 +26,7 @@ REQUIRED = ["iff_checked:plurality", "iff_checked:approval", "iff_checked:superm
             "margin_checked:contest_level_call_with_confirmed_assertions", "assertions_built_by_make_all_assertions",
             "candidate_names_contained_in_one_another", "contest_carries_a_reported_tally_when_assertions_are_made",
             "tally_taken_together_with_a_contest_of_another_n_winners", "ballots_in_pooled_batches_with_batch_means_set",
-            "margin_checked:sub_collection", "contest_identifier_assigned_after_assertions_were_made", "marks_held_in_a_dict_subclass"]
+            "margin_checked:sub_collection", "contest_identifier_assigned_after_assertions_were_made", "marks_held_in_a_dict_subclass", "vote_bearing_records_flagged_phantom"]
 ASSUMPTIONS = ["shares f in {1/2,1/4,1/8} (f and 1/(2f) both dyadic) are exact in binary; inexact shares (2/3, 0.6) are only evaluated at a "
                "distance from the threshold that rounding cannot bridge", "a mark for a name that is not on the contest's "
                "candidate list (write-in) appears only on ballots with no mark for a listed candidate, so that no "
@@ -89,6 +89,7 @@ def gen_profile(rng, kind, stratum):
     if rng.random() < 0.3:
         prof["cards_first"] = nb + rng.choice((1, 3, nb))
     prof["via_make_all"] = rng.random() < 0.4
+    prof["flagged"] = rng.random() < 0.1
     if rng.random() < 0.12:
         # the marks of a ballot held in a mapping that is a dict but not exactly a dict (json with object_pairs_hook, counters)
         prof["marks_container"] = rng.choice(("OrderedDict", "defaultdict", "Counter"))
@@ -198,6 +199,13 @@ def build(prof):
     mk = {"dict": dict, "OrderedDict": collections.OrderedDict, "defaultdict": lambda b: collections.defaultdict(int, b),
           "Counter": lambda b: collections.Counter(b)}[prof.get("marks_container", "dict")]
     cvrs = [CVR(id=f"c{i}", votes=({} if b is None else {"con": mk(dict(b))})) for i, b in enumerate(prof["ballots"])]
+    if prof.get("flagged"):
+        # some vote-bearing records carry the "phantom" flag (a record whose card could not be matched at first, loaded
+        # with phantom=True): the flag matters to the overstatement convention, not to what the ballot says - the assorter
+        # mean and the tally are both over the ballots as recorded
+        for i, cv in enumerate(cvrs):
+            if i % 3 == 1:
+                cv.phantom = True
     losers = [c for c in prof["cands"] if c not in prof["winners"]]
     # the constructors are called twice with the SAME argument objects (a notebook cell re-run, or one race audited
     # twice): the assertions used are those of the second call, and the caller's lists must come back unchanged
@@ -253,6 +261,8 @@ def run_case(prof, rec):
         rec.count("contest_identifier_assigned_after_assertions_were_made")
     if prof.get("marks_container"):
         rec.count("marks_held_in_a_dict_subclass")
+    if prof.get("flagged"):
+        rec.count("vote_bearing_records_flagged_phantom")
     if any(a != b and a in b for a in cands for b in cands):
         rec.count("candidate_names_contained_in_one_another")
     if con._args_mutated:
